@@ -126,7 +126,7 @@ CLAIMS = {
                 'agrees with s) on 8 body families (<= 3 spans, <= 2 resources x <= 2 scopes, all id classes, both framings, timestamp kinds, all orders of the optional keys, all subsets of 10 attribute '
                 'shapes) outside named candidate classes. Every finished behaviour is concretised and run through the REAL /v1/traces, /tempo/spans, /api/v2/spans, /tempo/api/push routes, insert services, '
                 'store and /api/traces/{id} (JSON and protobuf); rows and read-back are compared with the statement (verdict) and with the transcription (conformance, 0 deviations).',
-        'note': 'open known findings: NDJSON payload/state/long-line defects, service name depends on key order, short parent id lost on read, OTLP list attributes not indexed, peer.service replaces service.name on read.',
+        'note': '15 findings repaired by five fix: commits (NDJSON decoder state/payload/long lines, service name vs key order, short parent id on read, OTLP list attributes); one open finding: peer.service replaces service.name on read (writer/reader priority lists, upstream semantics).',
         'technique': 'TLA+ model checking (TLC) + replay of every exported case through the real writer routes, store and reader routes',
         'design_ref': '5/C06',
     },
@@ -136,7 +136,7 @@ CLAIMS = {
                 'coercion, extraction, drop, window/type/order/limit). TLC enumerates the bounded grammar (<= 2 matchers over 4 ops plus the 9-matcher selector, <= 2 line filters, label-filter trees of depth '
                 '<= 2, json / json with params / regexp, drop, window edges, type, limit, direction) on every small database; each case is concretised with hostile strings and decoys, stored (real writer '
                 'series rows, real MVs) and queried through the REAL /loki/api/v1/query_range over chsql; the multiset of (labels, timestamp, line) and the order under a limit must equal Eval.',
-        'note': 'meaning of SQL given by chsql; fragments M, L, P exhaustive, product sampled by seed; 10 open finding families (absent label matchers, 9+ matchers, !~ regex, LIKE escaping, alias scope after the labels join, go-engine limit, nested json path, label filter vs drop, json keyword parse).',
+        'note': 'meaning of SQL given by chsql; fragments M, L, P exhaustive, product sampled by seed; 8 finding families repaired by fix: commits; open: matchers on a label the stream lacks (label-index design), `| json != "x"` parsed as a label filter named json (grammar).',
         'technique': 'TLA+ definition vs mechanism spec, TLC case enumeration, replay through the real query_range over the reference interpreter',
         'design_ref': '5/C07',
     },
@@ -146,7 +146,7 @@ CLAIMS = {
                 'by/without in prefix and suffix position, comparison, topk/bottomk, step <,=,> range and the metrics_15s shortcut; LogQLPlan transcribes the SQL planners and the Go post-processors '
                 '(StepFix, FixPeriod, ZeroEater). TLC-enumerated cases are replayed through the REAL query_range with step; every observed (series, time, value) must be allowed by the definition and every '
                 'mandatory point present.',
-        'note': 'dyadic values for exact floats; quantile/stddev/stdvar/absent_over_time excluded; open findings: bytes_over_time divided by range, ungrouped sum not merged, shortcut ignores label filters / misaligned ranges, step>range instants, unwrap without parser, non-numeric unwrap counted as 0, zero points dropped, drop does not merge series (+ the C07 families inside metric pipelines).',
+        'note': 'dyadic values for exact floats; quantile/stddev/stdvar/absent_over_time excluded; 13 finding families repaired by fix: commits; open: absent-label matchers (shared with C07), step>range instants (StepFix/FixPeriod interplay), zero-valued points dropped (0 used as no-value).',
         'technique': 'TLA+ definition vs mechanism spec, TLC case enumeration, replay through the real query_range over the reference interpreter',
         'design_ref': '5/C08',
     },
@@ -156,7 +156,7 @@ CLAIMS = {
                 'entry sequence and every partition into channel messages (empty messages, end marker) and limit in {0,1,n} that the design equals the definition, is independent of batching, keeps distinct '
                 'label sets distinct and means what the SQL side means by limit. TLC-evaluated cases are replayed into the REAL planned chain (Parse -> Plan -> internal_planner with a scripted upstream) under 3 '
                 'partitions each, and 480 SQL-only vs breakpoint request pairs run end to end through query_range.',
-        'note': 'the code equals its literal transcription on every case; 19 open findings (label_format kills the process on the end marker, limit 0/absent forwards nothing, a malformed line aborts the stream with 200, fingerprint collisions/staleness, min=max, first/last, SQL label_format ignored, ...).',
+        'note': 'the code equals its literal transcription on every case; 15 findings repaired by fix: commits (kept in InProc.tla as retired regression classes); open: cross-engine differences (SQL-side label_format ignored without a breakpoint stage; in-process twins of SQL-side repairs, see known_findings.json).',
         'technique': 'TLA+ definition plus mechanism with as-coded switches, exhaustive TLC, replay of TLC-computed expected results into the real chain, e2e cross-engine comparison',
         'design_ref': '5/C09',
     },
@@ -166,7 +166,7 @@ CLAIMS = {
                 '(thorough 5) that the rendered text is exactly one literal decoding to the string. The spec transducers equal the real code on every exported string, and every string of length <= 3 (plus a '
                 'seeded sample) is placed in 167 string positions of the REAL LogQL, Loki, PromQL, TraceQL, Tempo and Pyroscope routes: the SQL handed to the session has the token structure of a harmless '
                 'string and carries the string only in literals decoding to it.',
-        'note': 'oracle: chsql lexer and LIKE rules; open finding: line-filter LIKE patterns decode to another pattern for strings with a backslash or ending in a quote (value wrong, structure intact).',
+        'note': 'oracle: chsql lexer and LIKE rules; the doLike escaping defect (10 signatures) is repaired by fix 5714936: TLC now proves LikeValue on Escape.tla; no open finding.',
         'technique': 'TLA+/TLC exhaustive check of the escaping transducers + conformance with the code + replay into the real routes with token-level comparison',
         'design_ref': '5/C10',
     },
@@ -175,7 +175,7 @@ CLAIMS = {
         'text': 'TraceQLSem.tla defines what a TraceQL query describes (Eval) and, planner by planner, the plan clickhouse_transpiler builds (PlanEval with named deviation rules for the code as written); TLC checks '
                 'on 58k (thorough 1.09M) query x database cases that the plan as designed conforms to the definition. The cases are concretised (hostile strings, numbers, times), stored directly or through the '
                 'real Zipkin/OTLP routes and queried through the REAL /api/search and /api/v2/search/tags|tag/x/values; every generated statement must run on chsql and the answer must be one Eval accepts.',
-        'note': 'open findings: empty WHERE group for duration-only selectors, WHERE prefilter drops duration-only matches, && || right-nested, && intersects span rows, three selectors reference a missing column / third selector unplanned, tags/values v2 ungrouped column, {} limit off-by-one at the window end.',
+        'note': 'all 8 findings (+1 uncovered behind them) repaired by fix: commits; CODE_DEVIATIONS = [distinct]; no open finding.',
         'technique': 'TLA+ model checking (TLC exhaustive layers + TLC-evaluated seeded sample) + replay through the real reader and writer routes over the reference interpreter',
         'design_ref': '5/C11',
     },
@@ -185,7 +185,7 @@ CLAIMS = {
                 'check each descriptor over all windows, row timestamps, row types and reader/writer zones within 3 days at 15 min resolution for Leak (admitted outside the window / other signal) and Miss '
                 '(in-window row rejected by a date or type bound, given the writer\'s date rule). Every candidate witness is replayed on the REAL endpoint with boundary rows, comparing rows offered/admitted per '
                 'scan (chsql) and the HTTP response.',
-        'note': '17 open signatures (local-zone date upper bounds, FormatFromDate(to) as upper bound, Tempo tag rows stored under the local day, ProfileTypes local dates, LogQL start truncated to seconds); tail not driven.',
+        'note': 'all 17 signatures repaired by six fix: commits (UTC day bounds, upper bounds without the lower-bound margin, Tempo tag index written under the UTC day, exact LogQL log window); the driver observes the writer date rule; tail not driven.',
         'technique': 'TLA+/TLC with constants generated from the executed SQL + counterexample replay + scan-level observation',
         'design_ref': '5/C13',
     },
@@ -194,7 +194,7 @@ CLAIMS = {
         'text': 'Replan.tla models planner objects with mutable fields (Mutates GENERATED from a reflective field probe of the real planner objects); TLC checks over all interleavings of 2 plan objects x 3 executions '
                 'x 36 query classes that re-execution and fresh translation mean the same. 108 TLC cases and a 700-query LogQL/TraceQL/profile corpus are replayed into the real planners: one plan executed 3x with '
                 'advancing bounds vs a fresh plan, compared by text, chsql tokens, then meaning on a writer-filled store; determinism within and across processes; portions of complex TraceQL requests; the real Tail for 3 ticks; the calls are validated as a Replan behaviour by TLC.',
-        'note': 'open findings: LineFilterPlanner rewrites Val in place (|~ "a\\\\.b" becomes match on the 2nd execution), ByWithoutPlanner re-uses LabelsCache (self-referencing CTE), AttrConditionPlanner strips the AggregatedAttr prefix per call.',
+        'note': 'all 4 findings repaired by three fix: commits (LineFilterPlanner.Val, ByWithoutPlanner.LabelsCache, AttrConditionPlanner.AggregatedAttr); no open finding.',
         'technique': 'TLA+/TLC model checking + TLC case generation + trace validation + differential re-execution with a reflective field probe',
         'design_ref': '5/C14',
     },
@@ -214,7 +214,7 @@ CLAIMS = {
                 'label-index bitmask query against matcher semantics for all DBs <= 3 series x matcher sets <= 3. TLC exports the contract table and every case; the driver replays all call sequences on the REAL '
                 'iterator and all cases through the REAL CLokiQuerier.Select, the Prometheus series/label-values routes and the Pyroscope routes over chsql, and compares the vendored Prometheus engine over the '
                 'real qryn Queryable with the same engine over a real Prometheus TSDB.',
-        'note': '33 open signatures: Seek (lower bound, backwards, revival, empty panic), missing-label and unanchored-regex matchers, 9+ matchers, duplicate label sets, hint pre-aggregation misalignments, range-start sample excluded.',
+        'note': '23 signatures repaired by nine fix: commits (Seek contract, anchored regex matchers, UInt64 matcher bits, duplicate label sets, inclusive range start, window placement, subquery instant selector, timestamp()); 10 open: matchers on an absent label (label-index design, 8), step-bucketed/subquery pre-aggregation needs the evaluation grid the hints do not carry (2).',
         'technique': 'TLA+ model checking (TLC) + exhaustive replay through the real cursor/selectors + differential PromQL against a Prometheus TSDB',
         'design_ref': '5/C17',
     },
